@@ -60,6 +60,22 @@ def batches(draw):
     k = draw(st.integers(1, 6))
     names = draw(st.lists(NAME, min_size=k, max_size=k, unique=True))
     entries = [draw(one_game()) for _ in range(k)]
+    # twins: a later entry that is an exact copy of an earlier game, or the same game with ONE fault
+    # (container-type faults first: they survive most serialisations)
+    for j in range(1, k):
+        what = draw(st.integers(0, 7))
+        if what > 2:
+            continue
+        i = draw(st.integers(0, j - 1))
+        if entries[i]["kind"] != "stopping":
+            continue
+        if what == 0:
+            entries[j] = dict(kind="stopping", game=copy.deepcopy(entries[i]["game"]), twin_of=i)
+        else:
+            fl = list(faults(entries[i]["game"]))
+            pool = [f for f in fl if f[0].startswith("R7")] if what == 1 else fl
+            f = pool[draw(st.integers(0, len(pool) - 1))]
+            entries[j] = dict(kind="malformed", game=f[4], rule=f[0], twin_of=i)
     perm = list(draw(st.permutations(list(range(k)))))
     sub = [i for i in range(k) if draw(st.booleans())] or [draw(st.integers(0, k - 1))]
     return dict(names=names, games=entries, perm=perm, subset=sub)
@@ -163,6 +179,8 @@ def check_case(case):
         v.cls("has_malformed_game")
     if any(removes):
         v.cls("has_pruning_game")
+    if any("twin_of" in e for e in entries):
+        v.cls("has_twin_of_another_game")
     v.cls(f"games={k}")
     v.nontrivial = nt
 
